@@ -95,16 +95,13 @@ def run(ck):
             ck.report(fkey(seg, e, kind), "recorded dictionary operation is not a step of Dict (%s key, n=%s, source %s): segment accepted %d of %d events; rejected %s" % (
                 kind, seg[0].get("n"), seg[0].get("src"), rj["accepted"], rj["length"], json.dumps(cellcommon.slim(e, 600))),
                 {"kind": "trace", "segment": [cellcommon.slim(x, 3000) for x in seg[:rj["accepted"] + 1]], "rejected_index": rj["accepted"]})
-        for l in open(tp):
-            if '"k":"Put"' in l and l.count('",') > 6:
-                pass
-        evs = vlib.read_ndjson(tp)
         cur = 0
-        for e in evs:
-            if e.get("k") == "Reset":
+        for l in open(tp):
+            if l.startswith('{"k":"Reset"') or '"k":"Reset"' in l[:300]:
                 nontrivial += cur >= 2; cur = 0
-            elif e.get("k") in ("Put", "Load"):
-                cur = max(cur, len(e.get("items", [])))
+            elif '"k":"Put"' in l or '"k":"Load"' in l:
+                e = json.loads(l)
+                cur = max(cur, e.get("size", len(e.get("items", []))))
         nontrivial += cur >= 2
     evs = vlib.read_ndjson(dtraces[0])
     ck.sample({"direction": "C->S", "events": [cellcommon.slim(e, 700) for e in evs[:4]]})
